@@ -200,6 +200,19 @@ func (l *orderColumnsRow) compareBytes(lval, rval Column, reverse bool) int {
 		lbval []byte
 		rbval []byte
 	)
+	// The two values may have different representations (string and []byte) or
+	// even different kinds (a JSON member that is a number in one row and a
+	// string in another): never assert the right value has the left one's type
+	if lb, lok := convertToByteArray(lval); lok {
+		rb, rok := convertToByteArray(rval)
+		if !rok {
+			return 0
+		}
+		if reverse {
+			return 0 - bytes.Compare(lb, rb)
+		}
+		return bytes.Compare(lb, rb)
+	}
 	switch lval.(type) {
 	case []byte:
 		lbval = lval.([]byte)
@@ -221,6 +234,12 @@ func (l *orderColumnsRow) compareBool(lval, rval Column, reverse bool) int {
 		lbool bool
 		rbool bool
 	)
+	if _, lok := lval.(bool); lok {
+		if _, rok := rval.(bool); !rok {
+			// Values of different kinds have no order
+			return 0
+		}
+	}
 	switch lval.(type) {
 	case bool:
 		lbool = lval.(bool)
@@ -266,6 +285,23 @@ func (l *orderColumnsRow) compareNumber(lval, rval Column, reverse bool) int {
 		err            error
 		isFloat        bool = false
 	)
+	// The two values may have different numeric kinds (a sum that is an integer
+	// in one group and a float in another): compare them by value
+	if li, liok := convertToInt(lval); liok {
+		if rf, rfok := convertToFloat(rval); rfok {
+			return l.compareFloat(float64(li), rf, reverse)
+		}
+		if _, riok := convertToInt(rval); !riok {
+			return 0
+		}
+	} else if lf, lfok := convertToFloat(lval); lfok {
+		if ri, riok := convertToInt(rval); riok {
+			return l.compareFloat(lf, float64(ri), reverse)
+		}
+		if _, rfok := convertToFloat(rval); !rfok {
+			return 0
+		}
+	}
 	switch lval.(type) {
 	case int:
 		lint = int64(lval.(int))
